@@ -410,4 +410,82 @@ theorem isEmpty_false_of_not_allNaN (w : List Val) (h : ¬ allNaN w = true) : w.
   | nil => simp [allNaN] at h
   | cons a l => rfl
 
+/-! ### NaN padding at the front of the window -/
+open SkVerif.Spec.Naive (meanOf present)
+
+/-- the series with everything before time `s` blanked -/
+def blankBefore (y : Int → Val) (s : Int) : Int → Val := fun t => if t < s then none else y t
+
+theorem windowTimes_add (T : Int) (P L : Nat) :
+    windowTimes T (P + L)
+      = (List.range P).map (fun (i : Nat) => T - ((P + L : Nat) : Int) + 1 + (i : Int)) ++ windowTimes T L := by
+  unfold windowTimes
+  rw [List.range_add, List.map_append, List.map_map]
+  congr 1
+  apply List.map_congr_left
+  intro i _
+  simp only [Function.comp]; push_cast; omega
+
+/-- NaN padding at the front = a longer window of the series blanked before the window start -/
+theorem pad_front_eq_window (y : Int → Val) (T : Int) (P L : Nat) :
+    List.replicate P none ++ window y T L = window (blankBefore y (T - (L : Int) + 1)) T (P + L) := by
+  unfold window
+  rw [windowTimes_add, List.map_append, List.map_map]
+  congr 1
+  · apply List.ext_getElem?
+    intro k
+    by_cases hk : k < P
+    · simp [hk, blankBefore]; omega
+    · simp [hk]
+  · apply List.map_congr_left
+    intro t ht
+    simp only [windowTimes, List.mem_map, List.mem_range] at ht
+    obtain ⟨i, _, rfl⟩ := ht
+    have : ¬ (T - (L : Int) + 1 + (i : Int) < T - (L : Int) + 1) := by omega
+    simp [blankBefore, this]
+
+theorem present_append (a b : List Val) : present (a ++ b) = present a ++ present b := by
+  rw [present_eq, present_eq, present_eq, List.filterMap_append]
+
+theorem meanOf_append_allNone (a b : List Val) (h : ∀ v ∈ a, v = none) : meanOf (a ++ b) = meanOf b := by
+  unfold meanOf
+  rw [present_append, present_of_allNone a h, List.nil_append]
+
+/-- blanking the padded part does not change the same-season mean -/
+theorem seasonalMean_blank (y : Int → Val) (T h : Int) (sp P L : Nat) :
+    meanOf (((windowTimes T (P + L)).filter (sameSeason T sp h)).map (blankBefore y (T - (L : Int) + 1)))
+      = meanOf (((windowTimes T L).filter (sameSeason T sp h)).map y) := by
+  rw [windowTimes_add, List.filter_append, List.map_append, meanOf_append_allNone]
+  · congr 1
+    apply List.map_congr_left
+    intro t ht
+    have ht' := (List.mem_filter.mp ht).1
+    simp only [windowTimes, List.mem_map, List.mem_range] at ht'
+    obtain ⟨i, _, rfl⟩ := ht'
+    have : ¬ (T - (L : Int) + 1 + (i : Int) < T - (L : Int) + 1) := by omega
+    simp [blankBefore, this]
+  · intro v hv
+    simp only [List.mem_map] at hv
+    obtain ⟨t, ht, rfl⟩ := hv
+    have ht' := (List.mem_filter.mp ht).1
+    simp only [List.mem_map, List.mem_range] at ht'
+    obtain ⟨i, hi, rfl⟩ := ht'
+    have : T - ((P + L : Nat) : Int) + 1 + (i : Int) < T - (L : Int) + 1 := by push_cast; omega
+    simp only [blankBefore, this, ↓reduceIte]
+
+/-- the pad width makes the padded length a whole number of seasons -/
+theorem pad_rows (L sp : Nat) (hsp : 0 < sp) :
+    ∃ rows, (if L % sp > 0 then sp - L % sp else 0) + L = rows * sp := by
+  have hd := Nat.div_add_mod L sp
+  have hlt := Nat.mod_lt L hsp
+  by_cases h : L % sp > 0
+  · refine ⟨L / sp + 1, ?_⟩
+    simp only [h, ↓reduceIte]
+    have : (L / sp + 1) * sp = sp * (L / sp) + sp := by ring
+    omega
+  · refine ⟨L / sp, ?_⟩
+    simp only [h, ↓reduceIte]
+    have : L / sp * sp = sp * (L / sp) := by ring
+    omega
+
 end SkVerif.Lem.Naive
